@@ -161,11 +161,17 @@ def Stsc.getContainingChunks (b : Stsc) (startNr endNr : Nat) : Option (List Chu
       else acc
   some (go (endChunk + 1 - startChunk) startChunk se sEnt [])
 
-/-- `GetSampleDescriptionID(chunkNr)`: NOTE the Go code indexes the per-entry slice with the chunk number -/
+/-- the single id the Go box stores when all entries carry the same one -/
 def Stsc.uniformSdi (b : Stsc) : Option Nat :=
   match b.sdi with
   | [] => some 0
   | x :: xs => if xs.all (· == x) then some x else none
+
+/-- `GetSampleDescriptionID(chunkNr)` (chunkNr 1-based, as documented and as mp4ff-crop calls it): the id of the stsc
+    entry the chunk belongs to; `none` = panic (no entry) -/
+def Stsc.getSampleDescriptionID (b : Stsc) (chunkNr : Nat) : Option Nat := do
+  let _ ← b.entries[b.findEntryForChunk chunkNr]?
+  b.sdi[b.findEntryForChunk chunkNr]?
 
 /-! ## stsz / stco / stss / sdtp -/
 structure Stsz where
